@@ -3,6 +3,7 @@
 -/
 import KatdalModel.Lemmas.ThreadsLazy
 open Threads Threads.Pool
+set_option linter.unusedVariables false
 
 namespace Threads.Pool
 
